@@ -115,6 +115,17 @@ CHECKS = {
         "Trusts the closed-form same-shell overlap and vf/ref R4. Found and repaired D10 (embedded '-' accepted).",
         "DESIGN.md 6/C10",
     ),
+    "C18": (
+        "property-based round-trip testing: generated model basis sets rendered under generated layouts (writer) and parsed "
+        "back; builders called repeatedly on the same argument objects with deep snapshots",
+        "Generated-input search: NWChem and Gaussian94 files with 0/1/2+ header lines, five number styles, SP shells, l up to "
+        "k, up to 6 columns, comments/blank lines, optional END/****; parse must equal the model exactly (float of each "
+        "emitted token, Gaussian94 generalized-shell merge rule). make_contractions/from_pyscf outputs equal the model and "
+        "arguments are bit-identical after every repetition (str/list/tuple coord_types).",
+        "Only layouts the formats define and BSE writes are generated (upper-case E/D); merge rule = exactly equal exponents. "
+        "Found and repaired D5, D6 (header handling) and D7 (pop on caller's list).",
+        "DESIGN.md 6/C18",
+    ),
 }
 
 NOT_YET = "check not built yet in this revision (planned, see DESIGN.md section 6)"
